@@ -146,7 +146,9 @@ def tlc_graph(config):
             f.write("INIT Init\nNEXT Next\nINVARIANT Excl\n")
         p = subprocess.run(["tlc", "-workers", "1", "-noGenerateSpecTE", "-metadir", os.path.join(d, "meta"),
                             "-dump", "dot,actionlabels", os.path.join(d, "g.dot"), "rwcfg"],
-                           cwd=d, capture_output=True, text=True, timeout=600)
+                           cwd=d, capture_output=True, text=True, timeout=600,
+                           # TLC leaves a tlc-<n> directory in java.io.tmpdir: keep that inside the scratch directory removed below
+                           env=dict(os.environ, JAVA_TOOL_OPTIONS="-Djava.io.tmpdir=" + d))
         out = p.stdout + p.stderr
         if "Model checking completed. No error has been found." not in out:
             return None, "TLC did not complete cleanly: " + out[-600:]
